@@ -81,6 +81,15 @@ def _run(chk, binary, rng, thorough, nsc, nruns):
             files.append(("f%02d.txt" % k, ("\n".join(lines) + "\n").encode()))
         scs.append(("files", {"files": files, "opts": [], "cmds": ["-m", "yiw", "-g", "^MARK|(\\w{2,9} ){3}ZZZ", "-m", "P", "--end"], "stdin": None,
                               "threads": [16, 12, 8, 16, 12]}))
+    # the same with many small files: little work per unit, so workers are forever looking for something to steal
+    for rep in range(3 if thorough else 1):
+        files = []
+        for k in range(400):
+            nl = rng.choice([2, 3, 4, 6])
+            lines = ["HEAD-%03d" % k] + [rng.choice(["abxx", "nope", "cdx", "plain text", "yyx"]) for _ in range(nl)]
+            files.append(("s%03d.txt" % k, ("\n".join(lines) + "\n").encode()))
+        scs.append(("files", {"files": files, "opts": [], "cmds": ["-m", "yy", "-g", "x+$", "-m", "~", "--end", "-m", "Gp"], "stdin": None,
+                              "threads": [8, 16, 32, 4, 16]}))
     for i in range(nsc):
         prog = rng.choice(PROGRAMS)
         r = rng.random()
